@@ -43,6 +43,8 @@ SPEC = {
                   "proposals_with_ineligible_present:locked_own": 10, "proposals_with_ineligible_present:too_shallow": 200,
                   "proposals_with_ineligible_present:other_account": 400,
                   "pending_transactions_stored": 15, "pending_transactions_mined": 5, "pending_transactions_expired_unmined": 4,
+                  "advances_to_expiry_boundary": 5, "bystander_locks_before_store": 30, "pending_transactions_spending_coins": 5,
+                  "pending_stored_fabricated_orchard_family": 5,
                   "lock_outputs_ok": 40, "unlock_output_calls": 10, "clear_locked_outputs_calls": 5, "rewinds": 4,
                   "diag_sendmax_selection_equals_model": 30, "diag_shielding_selection_equals_model": 15},
         "thorough": {"histories": 300, "evaluations": 8000, "distinct_nontrivial": 2500, "nontrivial_proposals": 5000,
@@ -56,6 +58,9 @@ SPEC = {
                      "proposals_with_ineligible_present:other_account": 8000,
                      "pending_transactions_stored": 300, "pending_transactions_mined": 100, "pending_transactions_expired_unmined": 80,
                      "pending_created_with_real_halo2_proofs": 10, "pending_created_real_prover": 20,
+                     "advances_to_expiry_boundary": 100, "bystander_locks_before_store": 600, "pending_transactions_spending_coins": 100,
+                     "pending_stored_fabricated_orchard_family": 100, "proposals_on_bucketed_anchor": 10,
+                     "proposals_with_shielding_output_shallow_only_by_its_coins": 5,
                      "lock_outputs_ok": 800, "unlock_output_calls": 200, "clear_locked_outputs_calls": 100, "rewinds": 80,
                      "diag_sendmax_selection_equals_model": 600, "diag_shielding_selection_equals_model": 300},
     },
